@@ -22,6 +22,13 @@ theorem FPok.triv (s : State) (up : List Id) : FPok s up := fun h => h.2.elim
 def Big (m : Mode) (r : Id) (ph : Phase) (s : State) : Prop :=
   ∃ up, Core s r up ph ∧ BodyBase s.dom s.headElem up ph ∧ Need s.dom m up ∧ FPok s up
 
+theorem BodyBase.notPf {d : Dom} {head : Option Id} {up : List Id} {ph : Phase} (h : BodyBase d head up ph) :
+    ¬ ph.isPf := by
+  rcases h with ⟨b, _, _, h2, _⟩ | ⟨_, _, _, _, _, _, h4⟩ | ⟨_, _, _, _, h4, _⟩ <;> (subst_vars; exact fun h => h)
+
+theorem Big.notPf {m : Mode} {r : Id} {ph : Phase} {s : State} (h : Big m r ph s) : ¬ ph.isPf := by
+  obtain ⟨_, _, hbb, _, _⟩ := h; exact hbb.notPf
+
 theorem Late.pr {s s' : State} {popped : List Id} (h : Late s) (p : PR s s' popped) : Late s' := by
   have hr := p.rest
   have e1 : s'.headElem = s.headElem := by rw [hr]
@@ -58,7 +65,7 @@ theorem Core.pr {s s' : State} {r : Id} {up up' popped : List Id} {ph : Phase} (
   have hdata : ∀ x, s'.dom.dataOf x = s.dom.dataOf x := fun x => by unfold Dom.dataOf; rw [p.nodes]
   have hsplit : s.openElems = s'.openElems ++ popped := p.stack
   refine ⟨h.late.pr p, hst, by rw [hk]; exact h.rdoc, ?_, ?_, ?_, ?_, ?_, ?_, (RS.of_nodes p.nodes).uniq h.rtu,
-    by rw [hk]; exact h.rnd, ?_, ?_, ?_⟩
+    by rw [hk]; exact h.rnd, ?_, ?_, ?_, ?_⟩
   · have := h.nodup; rw [hsplit] at this; exact (List.nodup_append.mp this).1
   · exact (h.tg.prefix hsplit).congr (fun x _ => hnm x)
   · intro x t hx
@@ -95,6 +102,8 @@ theorem Core.pr {s s' : State} {r : Id} {up up' popped : List Id} {ph : Phase} (
     cases up' with
     | nil => simp at hy
     | cons a t => simp only [List.cons_append, List.tail_cons] at hy ⊢; exact List.mem_append_left _ hy
+  · have haf : s'.activeFormatting = s.activeFormatting := by rw [hr]
+    rw [haf]; exact h.afx.of_nodes p.nodes
 
 theorem Core.root_mem {s : State} {r : Id} {up : List Id} {ph : Phase} (h : Core s r up ph) : r ∈ s.openElems := by
   rw [h.stack]; simp
@@ -405,7 +414,7 @@ theorem Big.pop_above {m : Mode} {r : Id} {ph : Phase} {s s' : State} {popped be
   have habove : ∀ y ∈ above, keepName (nm s.dom y) = false := by
     refine tg_above above (r :: below') x (by rw [← hst]; exact hc.tg) hx ?_
     intro y hy
-    refine htmlIn_split5 (hab y hy) (hc.bh y ?_)
+    refine htmlIn_split5 (hab y hy) (hc.bh4 h.notPf y ?_)
     rw [hup]
     cases below' with
     | nil => simpa using hy
